@@ -539,7 +539,22 @@ func c04Inscription(pkh []byte, r *prng.R) []byte {
 	s = append(s, 0x00)
 	n := prng.Pick(r, []int{1, 2, 13, 75, 76, 255, 256, 600})
 	s = append(s, gen.Push(r.Bytes(n))...)
-	return append(s, 0x68)
+	s = append(s, 0x68)
+	// the enriched form Tx.Inscribe builds: OP_RETURN followed by pushes (tails of 0, 1, 2 and more bytes)
+	switch r.Intn(8) {
+	case 0:
+		s = append(s, 0x6a)
+	case 1:
+		s = append(s, 0x6a, 0x00)
+	case 2:
+		s = append(s, 0x6a, 0x01, byte(r.Intn(256)))
+	case 3:
+		s = append(s, 0x6a, 0x00, 0x00)
+	case 4:
+		s = append(append(s, 0x6a), gen.Push(r.Bytes(1+r.Intn(80)))...)
+		s = append(s, gen.Push(r.Bytes(r.Intn(4)))...)
+	}
+	return s
 }
 
 // c04MakeCase draws a case: ni x no shape, signed input i, hash type t.
